@@ -1064,6 +1064,32 @@ def gen_iter_arm(isrc, src, W, suffix, arm):
     sig = " ".join(f"({x} : {t})" for x, t in params)
     return out + g.defs + [f"def iter_next_{arm}_{suffix} {sig} : {ret} := {top}"]
 
+def gen_dispatch(src, W, suffix):
+    """the layout dispatch at the end of `internal()` / `internal_mut()`: which view a heap block's `bits` word selects
+    (0: `Big`, 1: `Dense`, 2: `Heap`)"""
+    out = []
+    code = {"Big": 0, "Dense": 1, "Heap": 2}
+    for fn, enum, name in (("internal", "Internal", "layout"), ("internal_mut", "InternalMut", "layout_mut")):
+        m = re.search(r"\n    fn %s<'a>\(&'a (?:mut )?self\) -> %s<'a> \{" % (fn, enum), src)
+        if not m:
+            raise TieError(f"cannot find {fn} ({suffix})")
+        body = body_of(src, m.end() - 1)[0]
+        mm = re.search(r'if (b\.bits[^{]*?) \{\s*%s::(\w+) \{[^}]*\}\s*\} else if (b\.bits[^{]*?) \{\s*%s::(\w+) \{[^}]*\}\s*\} else \{\s*%s::(\w+) \{[^}]*\}\s*\}\s*\}\s*$' % (enum, enum, enum), body)
+        if not mm:
+            raise TieError(f"{fn} ({suffix}): layout dispatch")
+        c1, v1, c2, v2, v3 = mm.groups()
+        if {v1, v2, v3} != set(code):
+            raise TieError(f"{fn} ({suffix}): views {v1}, {v2}, {v3}")
+        conds = []
+        for c in (c1, c2):
+            lp = LP(lex(c), W, set(), suffix)
+            t = lp.expr()
+            if lp.peek()[0] != "eof":
+                raise TieError(f"{fn} ({suffix}): condition {c}")
+            conds.append(t)
+        out.append(f"def {name}_{suffix} (b_bits : Nat) : Nat := (if {conds[0]} then {code[v1]} else (if {conds[1]} then {code[v2]} else {code[v3]}))")
+    return out
+
 def gen_loops(s64, s32, i64=None, i32=None):
     out = ["import TinysetModel.Generated.Fns", "import TinysetModel.Generated.Consts",
            "/-! GENERATED by /verif/tools/gen_loops.py from src/setu64.rs and src/setu32.rs — do not edit.",
@@ -1099,6 +1125,7 @@ def gen_loops(s64, s32, i64=None, i32=None):
         out += gen_remove(src, W, suffix)
         out += gen_tiny_contains(src, W, suffix)
         out += gen_insert_fast(src, W, suffix)
+        out += gen_dispatch(src, W, suffix)
         out += gen_tiny_new(src, W, suffix)
         out += gen_tiny_singleton(src, W, suffix)
         isrc = i64 if W == 64 else i32
